@@ -335,6 +335,8 @@ func runSIV(w *vt.Writer, full bool) {
 			reps := 2
 			if full {
 				reps = 4
+			} else if route == "perkey" {
+				reps = 1
 			}
 			for k := 0; k < reps; k++ {
 				plans = append(plans, one(route, v, ids[(n+seed)%len(ids)], randKey64(r, n+seed)))
@@ -388,7 +390,7 @@ func runSIV(w *vt.Writer, full bool) {
 				switch {
 				case full && n <= 80 && (li+ci)%3 == 0: // thorough: the whole AD set on a third of (key, length) pairs
 					ads = append(ads, a)
-				case (ai+li+ci)%7 == 0, n <= 34 && (ai+li)%4 == 0:
+				case (ai+li+ci)%7 == 0, n <= 34 && (ai+li)%5 == 0:
 					ads = append(ads, a)
 				}
 			}
